@@ -223,11 +223,16 @@ def handler : Handler := fun op inp out =>
       let model := (modelReps s mask).flatMap (repTokens grid.1 grid.2)
       let g := specG s
       let outI := out.map (fun t => t.toInt?.getD (-3))
+      -- "valid D-symbol" (DESIGN §5.2) is recomputed here from the transmitted tables with the
+      -- Spec's own predicates; the harness's flag is only cross-checked (a disagreement is an error
+      -- of the harness's filter, reported under its own clause name, never used for gating)
+      let validS := g.involutive && g.complete && g.farCommute
       match splitReps grid dense mask outI with
       | some ps =>
         (intsToString model,
-         check (("input-is-involutive", g.involutive) ::
-                (ps.flatMap (tableClauses g (valid == 1)) ++ agreeClauses ps)))
+         check (("harness-error-valid-flag-disagrees-with-spec", (valid == 1) == validS) ::
+                ("input-is-involutive", g.involutive) ::
+                (ps.flatMap (tableClauses g validS) ++ agreeClauses ps)))
       | none => (intsToString model, fail "answer-tables-missing-or-panic")
     | none => bad
   | "counts" =>
